@@ -1128,6 +1128,11 @@ def run_inverse(c, Pm):
     impl = run_impl(go, Pm)
     ident = run_impl(lambda: build(d, Pm), Pm)
     ref = ident
+    if pair == 'reshape':
+        try:
+            np.reshape(np.empty(tuple(d['shape']), bool), args[0])
+        except ValueError:
+            return {'impl': impl, 'ref': ERR, 'coq': None}      # not a legal target: must be rejected
     if pair in ('join_split', 'swap_items') or (pair == 'scalars' and False):
         ref = ('ok', [dict(ident[1][0], derivs={})])
     return {'impl': impl, 'ref': ref, 'coq': None}
@@ -1199,6 +1204,9 @@ def signature(c, res):
         if c['kind'] == 'inv' and c['pair'] == 'swap_items':
             # the second swap sees numerator and denominator exchanged
             sig['nrank'], sig['drank'] = max(sig['nrank'], sig['drank']), min(sig['nrank'], sig['drank'])
+    if c['kind'] == 'inv' and c['pair'] == 'reshape':
+        t = c['args'][0]
+        sig['target_rank'] = len(t) if isinstance(t, (list, tuple)) else 1
     if c['kind'] == 'from_scalars':
         sig['cls'] = c['cls']
         sig['shape_given'] = c.get('mshape') is not None
@@ -1383,9 +1391,8 @@ def check_case(c, res):
     if c['kind'] == 'np':
         return True
     if c['kind'] == 'inv':
-        if impl[0] != 'ok':
-            # a reshape target that is illegal is not an inverse pair
-            return c['pair'] == 'reshape' and impl[0] == 'exc' and impl[1] == 'ValueError'
+        if ref[0] == 'err':
+            return impl[0] == 'exc' and impl[1] in ref[1]
         return same_obs(impl, ref)
     ok = same(impl, ref)
     if impl[0] == 'exc' and impl[1] not in ('ValueError', 'IndexError', 'TypeError'):
